@@ -62,4 +62,33 @@ def read (b : Bytes) : Outcome (List Feature) :=
     | .panic s => .panic s
   | _ => .err eIO
 
+/-! ### Specification reader (OpenType chapter 2, "Feature List table")
+
+"FeatureList table: featureCount, featureRecords[featureCount]; FeatureRecord: featureTag (Tag),
+featureOffset (Offset16) — offset to Feature table, from beginning of FeatureList."  "Feature table:
+featureParamsOffset, lookupIndexCount, lookupListIndices[lookupIndexCount]."  Record `i` of the result
+carries tag `i` of the bytes and the lookup indices of the table its own offset leads to; several records
+may share a table. -/
+
+def specU16 (b : Bytes) (p : Nat) : Option Nat :=
+  match b[p]?, b[p + 1]? with
+  | some x, some y => some (x.toNat * 256 + y.toNat)
+  | _, _ => none
+
+def specRecord (b : Bytes) (i : Nat) : Option Feature :=
+  match b[2 + 6 * i]?, b[2 + 6 * i + 1]?, b[2 + 6 * i + 2]?, b[2 + 6 * i + 3]?, specU16 b (2 + 6 * i + 4) with
+  | some t0, some t1, some t2, some t3, some off =>
+    match specU16 b off, specU16 b (off + 2) with
+    | some _, some cnt =>
+      match (List.range cnt).mapM fun j => specU16 b (off + 4 + 2 * j) with
+      | some idx => some ⟨[t0, t1, t2, t3], idx⟩
+      | none => none
+    | _, _ => none
+  | _, _, _, _, _ => none
+
+def specRead (b : Bytes) : Option (List Feature) :=
+  match specU16 b 0 with
+  | some n => (List.range n).mapM (specRecord b)
+  | none => none
+
 end SfntV.Otl.FL
